@@ -620,7 +620,10 @@ SEW3_CLASSES = {"1": "topology differs from the corresponding link", "2": "untou
                 "7": "C05:unsew-refused-on-embedded-mesh"}
 PROPS["C05"] = dict(
     level="translation_validation",
-    level_text="the 3D sews/unsews are transcribed in Gallina (Map3/Ops3.v, including the non-transactional orbit walks) and compared "
+    level_text="proved for all inputs: a refused sew publishes nothing, and the topology clause -- on every store a 3D sew / unsew of "
+               "dimension 1, 2, 3 that terminates normally changes images and removal flags exactly as the link / unlink does "
+               "(C05_*_topology, Map3/SewTopo3.v: data-only prefix ; topology-determined link, walks included ; data-only suffix). "
+               "Data clauses per observation: the 3D sews/unsews are transcribed in Gallina (Map3/Ops3.v) and compared "
                "with the implementation; the property is the executable Coq specification Sew3Oracle.oracle_sew3 (topology = the "
                "link's; per cell kind, merged cells carry the merge under the new id, untouched cells keep their value, no value "
                "under a dead id; unsew succeeds on fully embedded meshes) applied to every implementation observation, cells being "
